@@ -404,3 +404,11 @@ package nfa
 //@   loop 2: invariant lo <= r && (r <= hi + 1 || r == lo) && 0 <= lo && lo <= 127 && hi <= 127 && lo == runes[i] && hi == runes[i+1] && 0 <= i && i % 2 == 0 && i + 1 < len(runes) && sameslice(runes, charClass.Rune) && charClass != nil && charClass.Op == 4 && len(runes) % 2 == 0
 //@   loop 2: invariant forall j :: 0 <= j && j < i ==> runes[j] <= 127
 //@   loop 2: invariant forall b :: 0 <= b && b <= 255 ==> (membership[b] <==> ((exists j :: 0 <= j && j + 1 < len(runes) && j < i && j % 2 == 0 && runes[j] <= b && b <= runes[j+1]) || (lo <= b && b < r)))
+
+// composite DFA: an unanchored search by restarting the anchored automaton must try every start position in order
+// (a failed attempt from s says nothing about the starts between s and the byte where it died)
+//@ func (*CompositeSequenceDFA).SearchAt
+//@   props C19
+//@   opt safety=off
+//@   loop 1: ghost s0 = start
+//@   loop 1: lemma start == s0 + 1
